@@ -60,9 +60,17 @@ ENGINES = {
                        "--wrap=pthread_rwlock_rdlock,--wrap=pthread_rwlock_wrlock,--wrap=pthread_rwlock_tryrdlock,"
                        "--wrap=pthread_rwlock_trywrlock,--wrap=pthread_rwlock_unlock,"
                        "--wrap=pthread_spin_lock,--wrap=pthread_spin_trylock,--wrap=pthread_spin_unlock,--wrap=sched_yield,"
-                       "--wrap=__cxa_guard_acquire,--wrap=__cxa_guard_release,--wrap=__cxa_guard_abort"],
+                       "--wrap=__cxa_guard_acquire,--wrap=__cxa_guard_release,--wrap=__cxa_guard_abort,"
+                       "--wrap=flockfile,--wrap=funlockfile,--wrap=ftrylockfile"],
                    variants=[(s, ["-DNITRO_LOG_MIN_SEVERITY=" + s, "-DLOGSIM_MIN=%d" % i])
-                             for i, s in enumerate(SEVS)],
+                             for i, s in enumerate(SEVS)] +
+                            [("atomics", ["-DNITRO_LOG_MIN_SEVERITY=trace", "-DLOGSIM_MIN=0", "-DLOGSIM_ATOMICS=1"])],
+                   # the "atomics" variant is compiled with -fsanitize=thread but linked against
+                   # sim/logsim/atomics_rt.cpp instead of the TSan runtime: atomic operations of the
+                   # code under test become scheduler yield points (no ASan in this variant)
+                   variant_build={"atomics": dict(san="-fsanitize=thread,undefined", ld_san="-fsanitize=undefined",
+                                                  extra=["sim/logsim/atomics_rt.cpp"])},
+                   variant_weight={"atomics": 0.2},
                    probes=[("LS_HAVE_CALLABLE_LIT", "sim/logsim/probe_callable_lit.cpp"),
                            ("LS_HAVE_CALLABLE_FN", "sim/logsim/probe_callable_fn.cpp"),
                            ("LS_HAVE_CALLABLE_OBJ", "sim/logsim/probe_callable_obj.cpp")]),
@@ -137,10 +145,11 @@ def prune(parent, keep, protect):
             shutil.rmtree(x, ignore_errors=True)
 
 
-def build_core():
+def build_core(flags=None):
     """Compiles sim_main.cpp once per content hash; returns (object path, error text or None)."""
+    flags = flags or CXXFLAGS
     srcs = [os.path.join(VERIF, "sim/core/sim_main.cpp"), os.path.join(VERIF, "sim/core/sim.hpp")]
-    key = sha_files(srcs) + hashlib.sha256(" ".join(CXXFLAGS).encode()).hexdigest()[:6]
+    key = sha_files(srcs) + hashlib.sha256(" ".join(flags).encode()).hexdigest()[:6]
     d = os.path.join(BUILD, "core", key)
     obj = os.path.join(d, "sim_main.o")
     if os.path.exists(obj):
@@ -148,12 +157,12 @@ def build_core():
         return obj, None
     os.makedirs(d, exist_ok=True)
     tmp = os.path.join(d, "sim_main.%d.tmp.o" % os.getpid())
-    cmd = [CXX] + CXXFLAGS + ["-O1", "-c", srcs[0], "-o", tmp]
+    cmd = [CXX] + flags + ["-O1", "-c", srcs[0], "-o", tmp]
     r = run_cmd(cmd)
     if r.returncode != 0:
         return None, r.stdout + r.stderr
     os.replace(tmp, obj)
-    prune(os.path.join(BUILD, "core"), 3, d)
+    prune(os.path.join(BUILD, "core"), 4, d)
     return obj, None
 
 
@@ -208,12 +217,28 @@ def build_engine(engine):
         cmd = [CXX] + CXXFLAGS + [spec.get("opt", "-O1"), "-c", os.path.join(REPO, ns), "-o", obj]
         procs.append((ns, subprocess.Popen(cmd, stdout=subprocess.PIPE, stderr=subprocess.STDOUT, text=True)))
     var_objs = []
+    vbuild = spec.get("variant_build", {})
+    alt_core = {}
+    alt_threads = []
     for vname, vflags in spec["variants"]:
         objs = []
+        vb = vbuild.get(vname)
+        cflags = CXXFLAGS
+        if vb:
+            cflags = [vb["san"] if f.startswith("-fsanitize=") else f for f in CXXFLAGS]
+            core_flags = [vb["ld_san"] if f.startswith("-fsanitize=") else f for f in CXXFLAGS]
+            th = threading.Thread(target=lambda v=vname, cf=core_flags: alt_core.__setitem__(v, build_core(cf)))
+            th.start()
+            alt_threads.append(th)
+            for j, src in enumerate(vb["extra"]):
+                obj = os.path.join(d, "extra_%s_%d.o" % (vname, j))
+                objs.append(obj)
+                cmd = [CXX, "-std=c++17", "-g", "-O2", "-c", os.path.join(VERIF, src), "-o", obj]
+                procs.append((src + ":" + vname, subprocess.Popen(cmd, stdout=subprocess.PIPE, stderr=subprocess.STDOUT, text=True)))
         for j, src in enumerate(spec["src"]):
             obj = os.path.join(d, "eng_%s_%d.o" % (vname or "x", j))
             objs.append(obj)
-            cmd = [CXX] + CXXFLAGS + defs + vflags + ["-c", os.path.join(VERIF, src), "-o", obj]
+            cmd = [CXX] + cflags + defs + vflags + ["-c", os.path.join(VERIF, src), "-o", obj]
             procs.append((src + ":" + vname, subprocess.Popen(cmd, stdout=subprocess.PIPE, stderr=subprocess.STDOUT, text=True)))
         var_objs.append((vname, objs))
     failed = []
@@ -222,8 +247,13 @@ def build_engine(engine):
         if p.returncode != 0:
             failed.append((name, out))
     core_thread.join()
+    for th in alt_threads:
+        th.join()
     if core_result.get("obj") is None:
         failed.append(("core", core_result.get("err") or ""))
+    for v, (cobj, cerr) in alt_core.items():
+        if cobj is None:
+            failed.append(("core:" + v, cerr or ""))
     if failed:
         for name, out in failed:
             sys.stderr.write("BUILD FAILED: %s\n%s\n" % (name, out[-6000:]))
@@ -232,7 +262,10 @@ def build_engine(engine):
     names = []
     for vname, objs in var_objs:
         bname = engine + ("_" + vname if vname else "")
-        cmd = [CXX] + objs + nitro_objs + [core_result["obj"]] + LDFLAGS + spec["ld"] + ["-o", os.path.join(d, bname)]
+        vb = vbuild.get(vname)
+        core_obj = alt_core[vname][0] if vb else core_result["obj"]
+        ldflags = [vb["ld_san"] if f.startswith("-fsanitize=") else f for f in LDFLAGS] if vb else LDFLAGS
+        cmd = [CXX] + objs + nitro_objs + [core_obj] + ldflags + spec["ld"] + ["-o", os.path.join(d, bname)]
         r = run_cmd(cmd)
         if r.returncode != 0:
             sys.stderr.write("LINK FAILED: %s\n%s\n" % (bname, r.stderr[-4000:]))
@@ -533,6 +566,10 @@ def gate_replay(binary, prop, replay, want_cls, want_sig):
 
 def pick_binary(bins, replay_text=None):
     if replay_text:
+        if re.search(r"^knob atomics=1", replay_text, re.M):
+            for v, b in bins:
+                if v == "atomics":
+                    return b
         m = re.search(r"^knob min=(\d+)", replay_text, re.M)
         if m and len(bins) > 1:
             return bins[int(m.group(1)) % len(bins)][1]
@@ -561,16 +598,25 @@ def run_check(prop, tier, seed):
     # split the run-index range over NCPU workers; variants (logsim minima) interleave
     threads = []
     nb = len(bins)
-    per = max(1, total // NCPU)
+    assign = []
     for w in range(NCPU):
-        a, b = w * per, (w + 1) * per if w < NCPU - 1 else max(total, (w + 1) * per)
         vname, binary = bins[w % nb]
         if nb > 1:
             # every variant must see every part of the index space over time: rotate by seed
             vname, binary = bins[(w + seed) % nb]
-        th = threading.Thread(target=batch.worker, args=(binary, w, a, b, extra))
+        assign.append((vname, binary))
+    # a slower variant gets a proportionally shorter slice of the index range
+    weights = [ENGINES[engine].get("variant_weight", {}).get(v, 1.0) for v, _ in assign]
+    wsum = sum(weights)
+    cum = 0.0
+    a = 0
+    for w in range(NCPU):
+        cum += weights[w]
+        b = total if w == NCPU - 1 else max(a, int(round(total * cum / wsum)))
+        th = threading.Thread(target=batch.worker, args=(assign[w][1], w, a, b, extra))
         th.start()
         threads.append(th)
+        a = b
     for th in threads:
         th.join()
     resolve_nondet(batch)
